@@ -91,6 +91,29 @@ def clause_a(ctx: Context) -> None:
         if e.instr is not None and e.step is not None and e.instr.is_subclass_of(gate_base):
             steps.setdefault(e.step.qualname, (e.step, []))[1].append(e.instr.name)
     ctx.require_floor("C17a gate steps of the fermionic Fock simulator", len(steps), 4)
+    # the predicate the guards rely on looks at every element: `last - first + 1 == len` accepts (0, 2, 1, 3)
+    pred = idx.find_function("piquasso._math.validations", "are_modes_consecutive")
+    par = pred.params()[0]
+    parents_: Dict[int, ast.AST] = {}
+    for x in ast.walk(pred.node):
+        for ch in ast.iter_child_nodes(x):
+            parents_[id(ch)] = x
+    elementwise = []
+    for x in ast.walk(pred.node):
+        if isinstance(x, ast.Name) and x.id == par and isinstance(x.ctx, ast.Load):
+            pa = parents_.get(id(x))
+            if isinstance(pa, ast.Subscript) and pa.value is x and not isinstance(pa.slice, ast.Slice):
+                continue   # a single element (modes[0], modes[-1])
+            if isinstance(pa, ast.Call) and (dotted(pa.func) or "").split(".")[-1] in ("len", "min", "max", "sum", "set", "frozenset", "amin", "amax"):
+                continue   # an order-insensitive aggregate
+            elementwise.append(x)
+    keyp = f"{pred.qualname}|elementwise"
+    ctx.obligation("C17a", keyp, bool(elementwise), where=f"{ctx.relpath(pred.file)}:{pred.line}")
+    if not elementwise:
+        ctx.violation("C17a", keyp, pred.file, pred.line,
+                      f"{pred.name} decides from single elements and order-insensitive aggregates of `{par}` only (first, last, length, ...): a tuple "
+                      "whose inner modes are permuted, such as (0, 2, 1, 3), passes, and the guarded gate steps of the fermionic Fock simulator then "
+                      "apply a gate without the Jordan-Wigner signs it needs", construct=norm(pred.node.body[-1])[:160])
     for q, (fn, classes) in sorted(steps.items()):
         writes = _sv_writes(fn)
         key = f"{q}|{'/'.join(sorted(classes))}"
